@@ -1,4 +1,4 @@
-CONSTANT StepLimit = 3000
+CONSTANT StepLimit = 8000
 SPECIFICATION Spec
 VIEW View
 INVARIANT PosInRangeInv
